@@ -82,6 +82,23 @@ def set_pack():
     ]
 
 
+def anchored_container_pack():
+    """Anchored Hashes / Arrays holding several scalars which one path matches
+    together, and anchored scalars aliased inside them.  (The containers
+    themselves are not aliased: the plain-data model keeps one copy per
+    position.)"""
+    return [
+        ("m", (("a", ("&", "A", ("m", (("a", 3), ("b", 3))))), ("b", "x"))),
+        ("m", (("a", ("&", "A", ("l", ("x", "y", "x")))), ("b", 1))),
+        ("m", (("a", ("&", "B", "z9")),
+               ("b", ("&", "A", ("m", (("a", ("*", "B")), ("b", "w"))))),
+               ("c", ("*", "B")))),
+        ("l", (("&", "A", ("m", (("a", 1), ("b", 1)))), ("m", (("a", 1),)))),
+        ("m", (("a", ("&", "A", ("l", (("&", "B", "y"), "x", ("*", "B"))))),
+               ("b", ("l", (("*", "B"), "w"))))),
+    ]
+
+
 def build(tier):
     nmax = 4
     docs = corpus.docs(nmax, (1, 1000, "b", "a"), ("a", "b"), sets=False)
@@ -89,6 +106,7 @@ def build(tier):
         docs += corpus.decorations(base, key_alias=False)
     docs += twin_pack()
     docs += set_pack()
+    docs += anchored_container_pack()
     voc = paths.vocab("c01-quick")
     p1 = [rp((s,)) for s in voc]
     navs = [("key", "a"), ("key", "b"), ("idx", 0), ("idx", 1), ("all",),
